@@ -14,6 +14,10 @@ from vlib import coq
 from vlib.ctx import REPO, VERIF
 
 COMPONENT = 'Raft/{Types,Node,Net,Obs}.v <-> pysyncobj/syncobj.py + serializer.py'
+# files of /repo/pysyncobj whose execution under the traces is measured (harness/srccov.py) and functions that the Raft
+# run cannot reach by construction (other checks own them)
+SRC_FILES = ('syncobj.py', 'serializer.py', 'journal.py', 'fast_queue.py', 'atomic_replace.py')
+SRC_SKIP = ()
 GENS = ('random_trace', 'ro_trace', 'member_trace', 'journal_trace', 'killpoint_trace', 'scenario')
 
 
@@ -64,7 +68,8 @@ def run_one(item, workdir, keep_obs=False):
     else:
         rec = getattr(RC, gen)(seed, n_events, workdir=workdir, listeners=[mon], keep_obs=keep_obs)
     for p in getattr(rec, 'convergence', []):
-        mon.rec('C05', p)
+        for prop in getattr(rec, 'convergence_props', ('C05',)):
+            mon.rec(prop, p)
     return rec, mon
 
 
@@ -73,6 +78,8 @@ def _worker(args):
     import resource
     resource.setrlimit(resource.RLIMIT_AS, (6 << 30, 6 << 30))
     from harness import raft_corr as RC
+    from harness import srccov
+    cov = srccov.Collector()
     out = []
     for item in items:
         name = '%s_%s' % (item[0][:2], item[1])
@@ -80,7 +87,13 @@ def _worker(args):
         os.makedirs(wd, exist_ok=True)
         t0 = time.time()
         try:
-            rec, mon = run_one(item, wd)
+            cov.begin()
+            try:
+                rec, mon = run_one(item, wd)
+            except BaseException:
+                cov.abort()
+                raise
+            cov.end('compared' if rec.model_ok else 'monitored')
             if rec.model_ok:
                 d, c = RC.v_case(name, rec.cfg, rec.mevents, rec.digests)
             else:
@@ -97,7 +110,7 @@ def _worker(args):
             out.append({'item': list(item), 'name': name, 'crash': traceback.format_exc()[-2000:]})
         import shutil
         shutil.rmtree(wd, ignore_errors=True)
-    return out
+    return out, cov.dump()
 
 
 def raft_run(ctx, note=True):
@@ -118,7 +131,10 @@ def raft_run(ctx, note=True):
     nproc = int(os.environ.get('NPROC', '14'))
     parts = [(items[i::nproc], workroot) for i in range(nproc) if items[i::nproc]]
     with mp.get_context('fork').Pool(len(parts)) as pool:
-        traces = [r for part in pool.map(_worker, parts) for r in part]
+        results = pool.map(_worker, parts)
+    traces = [r for part, _ in results for r in part]
+    from harness import srccov
+    covmap = srccov.merge([c for _, c in results])
     t_impl = time.time() - t0
     good = [t for t in traces if 'crash' not in t and t.get('model')]
     files, groups = [], []
@@ -150,7 +166,10 @@ def raft_run(ctx, note=True):
         t.pop('call', None)
     import shutil
     shutil.rmtree(workroot, ignore_errors=True)
-    res = {'key': key, 'traces': traces, 'wall_impl': t_impl, 'wall_total': time.time() - t0, 'cached': False}
+    # a trace whose model evaluation diverged or failed is not "compared": only when every trace agreed does the
+    # 'compared' coverage mean what it says (otherwise account() reports the divergences anyway)
+    res = {'key': key, 'traces': traces, 'wall_impl': t_impl, 'wall_total': time.time() - t0, 'cached': False,
+           'source_coverage': srccov.report(covmap, SRC_FILES, skip_functions=SRC_SKIP) if covmap else None}
     with open(cpath, 'w') as f:
         json.dump(res, f)
     if note:
@@ -224,9 +243,11 @@ def account(ctx, res, props, by_generator=None):
             ctx.monitor['monitor_only_traces'] = ctx.monitor.get('monitor_only_traces', 0) + 1
             for kp in t.get('kill_points', []):
                 ctx.count(COMPONENT, 'kill_before:' + kp)
+        eff_props = (set(props) | set(by_generator.get(t['item'][0], ()))
+                     | set(by_generator.get('%s:%s' % (t['item'][0], t['item'][1]), ())))
         for a in t.get('attributed', []):
             fid, prop = a[0], a[1]
-            if prop in props:
+            if prop in eff_props:
                 listed = [f for f in ctx.known_for() if f['id'] == fid]
                 if listed:
                     ctx.known_finding(listed[0])
@@ -249,7 +270,8 @@ def account(ctx, res, props, by_generator=None):
         for k, v in t['stats'].items():
             stats[k] = stats.get(k, 0) + v
         for prop, msg, step in t['records']:
-            if prop in props or prop in by_generator.get(t['item'][0], ()):
+            if (prop in props or prop in by_generator.get(t['item'][0], ())
+                    or prop in by_generator.get('%s:%s' % (t['item'][0], t['item'][1]), ())):
                 n_rec += 1
                 if n_rec <= 3:
                     ctx.violation('%s monitor on the implementation: %s' % (prop, msg),
@@ -269,6 +291,14 @@ def account(ctx, res, props, by_generator=None):
                          'consumed in runs, answers handled across leader ticks), converge_trace (faults then a quiet period; monitors only). '
                          'Every event of a model-checked trace is replayed on the Coq model and the digest of the stepped node state + '
                          'outputs is compared; non-trivial = at least one election and more than 3 applied entries; distinct by generator+seed')
+    if res.get('source_coverage'):
+        sc = res['source_coverage']
+        ctx.extra['source_coverage'] = {
+            'what': 'statements / branch exits of /repo/pysyncobj executed by the traces of this run (coverage.py, function '
+                    'bodies only): "compared" = inside traces whose every step was diffed against the Coq model; "any" = also '
+                    'the monitor-only traces (kills inside a step, convergence runs).  A statement no compared trace reaches is '
+                    'outside the tie between model and source for this run',
+            'files': sc}
     good = [t for t in res['traces'] if 'crash' not in t]
     if good:
         t = good[len(good) // 2]
@@ -294,7 +324,7 @@ def search(ctx, props, n=None):
     os.makedirs(workroot, exist_ok=True)
     parts = [(items[i::nproc], workroot) for i in range(nproc) if items[i::nproc]]
     with mp.get_context('fork').Pool(len(parts)) as pool:
-        traces = [r for part in pool.map(_worker, parts) for r in part]
+        traces = [r for part, _ in pool.map(_worker, parts) for r in part]
     hits = 0
     for t in traces:
         if 'crash' in t:
